@@ -210,8 +210,9 @@ def geBest (v : Rat) (best : Option Plan) (eps : Rat) : Bool :=
   | none => false
   | some p => decide (v ≥ (rolls p : Rat) - eps)
 
-/-- The `while tree and nodes_explored < max_nodes` loop. `some status` = early `return`. -/
-def bpLoop (solve : Solver) (eps gapTol : Rat) (lb : Int) (maxNodes : Nat) :
+/-- The `while tree and nodes_explored < max_nodes` loop. `some status` = early `return`;
+`stop n` = `report_progress(...)` after the `n`-th explored node. -/
+def bpLoop (solve : Solver) (eps gapTol : Rat) (lb : Int) (maxNodes : Nat) (stop : Nat → Bool) :
     Nat → BpSt → BpSt × Option String
   | 0, st => (st, none)
   | fuel + 1, st =>
@@ -220,13 +221,14 @@ def bpLoop (solve : Solver) (eps gapTol : Rat) (lb : Int) (maxNodes : Nat) :
     | none => (st, none)
     | some ((bound, cnt, bounds), rest) =>
       let st := { st with tree := rest, fragile := st.fragile || popTie (bound, cnt, bounds) rest }
-      if geBest bound st.best eps then bpLoop solve eps gapTol lb maxNodes fuel st else
+      if geBest bound st.best eps then bpLoop solve eps gapTol lb maxNodes stop fuel st else
       let r := solve st.cols bounds
       let st := { st with cols := r.cols, nodes := st.nodes + 1 }
+      if stop st.nodes then (st, none) else  -- `report_progress(...)` asked to stop: `break`
       match r.obj with
-      | none => bpLoop solve eps gapTol lb maxNodes fuel st
+      | none => bpLoop solve eps gapTol lb maxNodes stop fuel st
       | some obj =>
-        if geBest obj st.best eps then bpLoop solve eps gapTol lb maxNodes fuel st else
+        if geBest obj st.best eps then bpLoop solve eps gapTol lb maxNodes stop fuel st else
         match mostFractional r.xs eps with
         | none =>
           let cand := buildSolution r.xs st.cols eps
@@ -236,17 +238,18 @@ def bpLoop (solve : Solver) (eps gapTol : Rat) (lb : Int) (maxNodes : Nat) :
           if better then
             let st := { st with best := some cand }
             if gapOk (rolls cand) lb gapTol then (st, some "OPTIMAL")
-            else bpLoop solve eps gapTol lb maxNodes fuel st
-          else bpLoop solve eps gapTol lb maxNodes fuel st
+            else bpLoop solve eps gapTol lb maxNodes stop fuel st
+          else bpLoop solve eps gapTol lb maxNodes stop fuel st
         | some (idx, val) =>
           let st := { st with fragile := st.fragile || fracTie r.xs eps }
           let left := (obj, st.counter, bounds ++ [⟨idx, 0, some (val.floor : Rat)⟩])
           let right := (obj, st.counter + 1, bounds ++ [⟨idx, (val.ceil : Rat), none⟩])
-          bpLoop solve eps gapTol lb maxNodes fuel
+          bpLoop solve eps gapTol lb maxNodes stop fuel
             { st with tree := st.tree ++ [left, right], counter := st.counter + 2 }
 
-/-- `_branch_and_price` (no progress callback). -/
-def bpRun (solve : Solver) (cols0 : List Pat) (d : List Nat) (eps gapTol : Rat) (maxIter maxNodes : Nat) : BpOut :=
+/-- `_branch_and_price`. -/
+def bpRun (solve : Solver) (cols0 : List Pat) (d : List Nat) (eps gapTol : Rat) (maxIter maxNodes : Nat)
+    (stop : Nat → Bool := fun _ => false) : BpOut :=
   let root := solve cols0 []
   match root.obj with
   | none => ⟨"INFEASIBLE", none, 0, 0, false, 0, false, root.duals, none, false⟩
@@ -259,7 +262,7 @@ def bpRun (solve : Solver) (cols0 : List Pat) (d : List Nat) (eps gapTol : Rat) 
       ⟨if conv then "OPTIMAL" else "FEASIBLE", some plan, rolls plan, 0, conv, lb, true, root.duals, some obj, false⟩
     | some _ =>
       let st0 : BpSt := ⟨root.cols, [(obj, 0, [])], 1, roundSolution root.xs root.cols d eps, 0, false⟩
-      let (st, early) := bpLoop solve eps gapTol lb maxNodes (2 * maxNodes + 2) st0
+      let (st, early) := bpLoop solve eps gapTol lb maxNodes stop (2 * maxNodes + 2) st0
       match early with
       | some s => ⟨s, st.best, (st.best.map rolls).getD 0, st.nodes, conv, lb, false, root.duals, some obj, st.fragile⟩
       | none =>
@@ -277,10 +280,12 @@ def csPricer (W : Nat) (sizes : List Nat) (eps : Rat) : Pricer :=
 def colsPricer (cols : List Pat) (eps : Rat) : Pricer :=
   ⟨pricingCols cols, fun v => decide (v ≥ -eps)⟩
 
-def bpCuttingStock (W : Nat) (sizes d : List Nat) (maxIter maxNodes : Nat) (eps gapTol : Rat) : BpOut :=
-  bpRun (nodeLP (csPricer W sizes eps) d eps maxIter) (initPats W sizes d) d eps gapTol maxIter maxNodes
+def bpCuttingStock (W : Nat) (sizes d : List Nat) (maxIter maxNodes : Nat) (eps gapTol : Rat)
+    (stop : Nat → Bool := fun _ => false) : BpOut :=
+  bpRun (nodeLP (csPricer W sizes eps) d eps maxIter) (initPats W sizes d) d eps gapTol maxIter maxNodes stop
 
-def bpCustom (cols init : List Pat) (d : List Nat) (maxIter maxNodes : Nat) (eps gapTol : Rat) : BpOut :=
-  bpRun (nodeLP (colsPricer cols eps) d eps maxIter) init d eps gapTol maxIter maxNodes
+def bpCustom (cols init : List Pat) (d : List Nat) (maxIter maxNodes : Nat) (eps gapTol : Rat)
+    (stop : Nat → Bool := fun _ => false) : BpOut :=
+  bpRun (nodeLP (colsPricer cols eps) d eps maxIter) init d eps gapTol maxIter maxNodes stop
 
 end Solvor.Cut.Mirror
